@@ -77,7 +77,8 @@ type c02Outcome struct {
 	p        *profile.Profile
 	puErr    string // error of ParseUncompressed on the (gunzipped) input, "" = ok or not run
 	puOK     bool
-	cpu      bool // the model recognised a binary legacy CPU profile
+	cpu      bool     // the model recognised a binary legacy CPU profile
+	reports  []string // per report format: "<name>:ok" or "<name>:error"
 }
 
 // c02Contract checks the validity contract in the words of the property.
@@ -251,7 +252,11 @@ func c02observe(b []byte, reports bool, mult int, retried bool) *c02Outcome {
 						pn, st = fmt.Sprint(e), string(debug.Stack())
 					}
 				}()
-				c02Report(o.pb, f) // an error return is fine, a panic is not
+				if e := c02Report(o.pb, f); e != nil { // an error return is fine, a panic is not
+					o.reports = append(o.reports, f.name+":error")
+				} else {
+					o.reports = append(o.reports, f.name+":ok")
+				}
 				return ""
 			}()
 			if pn != "" {
@@ -492,6 +497,10 @@ func c02Check(c *Ctx, raw []byte, stream string, cli bool) *c02Outcome {
 			maxEvals = 12
 		}
 		sig := o.sig
+		if c.Res.sigSeen["violation"+sig] { // already reported with a shrunk replay
+			c.Res.Hit("violation:" + o.sig)
+			return o
+		}
 		small := c02Shrink(raw, maxEvals, func(cand []byte) bool { return c02Observe(cand, true).sig == sig })
 		c.Violation(o.sig, o.what, c02Case{Bytes: hex.EncodeToString(small), Stream: stream, CLI: false})
 		c.Res.Hit("violation:" + o.sig)
@@ -563,4 +572,3 @@ func c02ErrKind(e string) string {
 	}
 	return "other"
 }
-
